@@ -30,7 +30,10 @@ Inductive ppq_op :=
 | QPush (prio part : N) | QDelete (prio part : N) | QPop (o : option (N * N)) | QPeek (o : option N) | QEmpty (o : bool).
 Inductive zip_op :=
 | ZPut (k v : bytes) (rank : N) (o : option bytes) | ZGet (k : bytes) (o : option (bytes * bytes))   (* key and value of the returned node *)
-| ZAscend (p : bytes) (o : list (bytes * bytes)) | ZAscendN (p : bytes) (n : N) (o : list (bytes * bytes)).
+| ZAscend (p : bytes) (o : list (bytes * bytes)) | ZAscendN (p : bytes) (n : N) (o : list (bytes * bytes))
+(* iterator values: ZSeq p = seq := t.AscendPrefix(p) kept in a pool; ZRange i n o = one range over pool[i], stopped after n
+   items (n = 0: drained).  Every range is a fresh traversal of the tree as it is when that range starts. *)
+| ZSeq (p : bytes) | ZRange (i n : N) (o : list (bytes * bytes)).
 Inductive cache_op :=
 | KPush (v : bytes) (o_size : N) | KPop (o : option bytes) (o_size : N) | KPopLast (o : option bytes) (o_size : N)
 | KPeek (o : option bytes) | KDelete (k : bytes) (o_size : N) | KEmpty (o : bool).
@@ -44,11 +47,17 @@ Inductive pset_op :=
 | PNew (cap : N) | POf (vs : list bytes)
 | PAddInPlace (i : N) (vs : list bytes)
 | PAdded (i : N) (vs : list bytes) | PWithout (i : N) (vs : list bytes) | PDiff (i j : N)
-| PObs (o : list (list bytes * list bytes * N * list bool)).
+| PObs (o : list (list bytes * list bytes * N * list bool))
+(* PSeq i = seq := pool[i].All() kept in a pool of iterators; PRange k n o = one range over iterator k stopped after n items
+   (0 = drained): it lists the set as it is when the range runs *)
+| PSeq (i : N) | PRange (k n : N) (o : list bytes).
 
 Inductive smap_op :=
 | MSet (k : bytes) (v : N) (o_new : bool) | MDelete (k : bytes) (o : bool) | MGet (k : bytes) (o : option N)
-| MHas (k : bytes) (o : bool) | MSize (o : N) | MKeys (o : list bytes) | MValues (o : list N) | MAll (o : list (bytes * N)).
+| MHas (k : bytes) (o : bool) | MSize (o : N) | MKeys (o : list bytes) | MValues (o : list N) | MAll (o : list (bytes * N))
+(* one range over a previously obtained seq := m.All() (any of them), stopped after n items (0 = drained): sorted listing of the
+   map as it is when the range runs *)
+| MRange (n : N) (o : list (bytes * N)).
 
 Inductive case :=
 | CSearch (xs : list N) (t : N) (o_idx : N) (o_ok : bool)
@@ -151,24 +160,31 @@ Fixpoint ppq_run (ops : list ppq_op) (q : ppq) (ref : list (N * N)) : list N :=
 Definition ppq_ref_init (init : list (list N)) : list (N * N) :=
   concat (map (fun ip => map (fun p => (p, N.of_nat (fst ip))) (snd ip)) (combine (seq 0 (length init)) init)).
 
+(* a range stopped by the consumer after lim items (lim = 0: drained) *)
+Definition limited {A} (lim : N) (l : list A) : list A := if lim =? 0 then l else firstn (N.to_nat lim) l.
+
 (* ---------- zip tree ---------- *)
 Definition kvs_eqb := list_eqb kv_eqb.
 Definition pfilter (p : bytes) (m : list (bytes * bytes)) := filter (fun kv => is_prefix p (fst kv)) m.
-Fixpoint zip_run (ops : list zip_op) (t : tree) (ref : list (bytes * bytes)) : list N :=
+Fixpoint zip_run (ops : list zip_op) (t : tree) (ref : list (bytes * bytes)) (seqs : list bytes) : list N :=
   match ops with
   | [] => []
   | op :: r =>
       match op with
       | ZPut k v rank o =>
           let '(t', old) := put k v rank t in
-          chk (opt_eqb bytes_eqb old o) 4 ++ chk (opt_eqb bytes_eqb (al_get k ref) o) 14 ++ zip_run r t' (al_put k v ref)
+          chk (opt_eqb bytes_eqb old o) 4 ++ chk (opt_eqb bytes_eqb (al_get k ref) o) 14 ++ zip_run r t' (al_put k v ref) seqs
       | ZGet k o =>
           chk (opt_eqb bytes_eqb (get k t) (option_map snd o)) 4 ++
           chk (opt_eqb bytes_eqb (al_get k ref) (option_map snd o) && match o with Some kv => bytes_eqb (fst kv) k | None => true end) 14 ++
-          zip_run r t ref
-      | ZAscend p o => chk (kvs_eqb (ascend_prefix p t) o) 4 ++ chk (kvs_eqb (pfilter p ref) o) 14 ++ zip_run r t ref
+          zip_run r t ref seqs
+      | ZAscend p o => chk (kvs_eqb (ascend_prefix p t) o) 4 ++ chk (kvs_eqb (pfilter p ref) o) 14 ++ zip_run r t ref seqs
       | ZAscendN p n o => chk (kvs_eqb (firstn (N.to_nat n) (ascend_prefix p t)) o) 4 ++
-                          chk (kvs_eqb (firstn (N.to_nat n) (pfilter p ref)) o) 14 ++ zip_run r t ref
+                          chk (kvs_eqb (firstn (N.to_nat n) (pfilter p ref)) o) 14 ++ zip_run r t ref seqs
+      | ZSeq p => zip_run r t ref (seqs ++ [p])
+      | ZRange i n o =>
+          let p := nth (N.to_nat i) seqs [] in
+          chk (kvs_eqb (limited n (ascend_prefix p t)) o) 4 ++ chk (kvs_eqb (limited n (pfilter p ref)) o) 14 ++ zip_run r t ref seqs
       end
   end.
 
@@ -223,24 +239,29 @@ Definition obs_eqb (univ : list bytes) (sl : list bytes) (has : bytes -> bool) (
   bl_eqb sl osl && bl_eqb sl oall && (osz =? N.of_nat (length sl)) && list_eqb Bool.eqb (map has univ) ohas.
 Fixpoint all2 {A B} (f : A -> B -> bool) (a : list A) (b : list B) : bool :=
   match a, b with [], [] => true | x :: a', y :: b' => f x y && all2 f a' b' | _, _ => false end.
-Fixpoint pset_run (univ : list bytes) (ops : list pset_op) (pool : list set) (rpool : list (list bytes)) : list N :=
+Fixpoint pset_run (univ : list bytes) (ops : list pset_op) (pool : list set) (rpool : list (list bytes)) (seqs : list N) : list N :=
   match ops with
   | [] => []
   | op :: r =>
       match op with
-      | PNew _ => pset_run univ r (pool ++ [set_empty]) (rpool ++ [[]])
-      | POf vs => pset_run univ r (pool ++ [set_add vs set_empty]) (rpool ++ [ref_add [] vs])
+      | PNew _ => pset_run univ r (pool ++ [set_empty]) (rpool ++ [[]]) seqs
+      | POf vs => pset_run univ r (pool ++ [set_add vs set_empty]) (rpool ++ [ref_add [] vs]) seqs
       | PAddInPlace i vs =>
           pset_run univ r (upd (N.to_nat i) (set_add vs (pool_get set_empty i pool)) pool)
-                          (upd (N.to_nat i) (ref_add (pool_get [] i rpool) vs) rpool)
-      | PAdded i vs => pset_run univ r (pool ++ [set_add vs (pool_get set_empty i pool)]) (rpool ++ [ref_add (pool_get [] i rpool) vs])
-      | PWithout i vs => pset_run univ r (pool ++ [set_without vs (pool_get set_empty i pool)]) (rpool ++ [ref_without (pool_get [] i rpool) vs])
+                          (upd (N.to_nat i) (ref_add (pool_get [] i rpool) vs) rpool) seqs
+      | PAdded i vs => pset_run univ r (pool ++ [set_add vs (pool_get set_empty i pool)]) (rpool ++ [ref_add (pool_get [] i rpool) vs]) seqs
+      | PWithout i vs => pset_run univ r (pool ++ [set_without vs (pool_get set_empty i pool)]) (rpool ++ [ref_without (pool_get [] i rpool) vs]) seqs
       | PDiff i j => pset_run univ r (pool ++ [set_diff (pool_get set_empty i pool) (pool_get set_empty j pool)])
-                                     (rpool ++ [filter (fun e => negb (mem e (pool_get [] j rpool))) (pool_get [] i rpool)])
+                                     (rpool ++ [filter (fun e => negb (mem e (pool_get [] j rpool))) (pool_get [] i rpool)]) seqs
       | PObs o =>
           chk (all2 (fun s ob => obs_eqb univ (set_slice s) (fun v => set_has v s) ob) pool o) 6 ++
           chk (all2 (fun rf ob => obs_eqb univ rf (fun v => mem v rf) ob) rpool o) 16 ++
-          pset_run univ r pool rpool
+          pset_run univ r pool rpool seqs
+      | PSeq i => pset_run univ r pool rpool (seqs ++ [i])
+      | PRange k n o =>
+          let i := nth (N.to_nat k) seqs 0 in
+          chk (bl_eqb (limited n (set_slice (pool_get set_empty i pool))) o) 6 ++ chk (bl_eqb (limited n (pool_get [] i rpool)) o) 16 ++
+          pset_run univ r pool rpool seqs
       end
   end.
 
@@ -263,6 +284,8 @@ Fixpoint smap_run (ops : list smap_op) (s : smap) (ref : list (bytes * N)) : lis
       | MKeys o => let '(s', ks) := smap_keys s in chk (bl_eqb ks o) 7 ++ chk (bl_eqb (map fst ref) o) 17 ++ smap_run r s' ref
       | MValues o => let '(s', vs) := smap_values s in chk (list_eqb N.eqb vs o) 7 ++ chk (list_eqb N.eqb (map snd ref) o) 17 ++ smap_run r s' ref
       | MAll o => let '(s', kvs) := smap_all s in chk (list_eqb kn_eqb kvs o) 7 ++ chk (list_eqb kn_eqb ref o) 17 ++ smap_run r s' ref
+      | MRange n o => let '(s', kvs) := smap_all s in
+          chk (list_eqb kn_eqb (limited n kvs) o) 7 ++ chk (list_eqb kn_eqb (limited n ref) o) 17 ++ smap_run r s' ref
       end
   end.
 
@@ -284,7 +307,6 @@ Fixpoint ref_merge_ins (x : mitem) (m : list mitem) : list mitem :=
                end
   end.
 Definition ref_merge (its : list (list mitem)) : list mitem := fold_left (fun m x => ref_merge_ins x m) (concat its) [].
-Definition limited {A} (lim : N) (l : list A) : list A := if lim =? 0 then l else firstn (N.to_nat lim) l.
 Definition merge_check (lim : N) (its : list (list mitem)) (o : list mitem) : list N :=
   chk (match merge mcmp keep_newest mitem_eqb its with Some l => list_eqb mitem_eqb (limited lim l) o | None => false end) 8 ++
   chk (list_eqb mitem_eqb (limited lim (ref_merge its)) o) 18.
@@ -313,10 +335,10 @@ Definition check_case (c : case) : list N :=
   | CSearchRange tbls key i ok => search_check range_key_compare tbls key i ok
   | CHeap ops => heap_run ops [] []
   | CPPQ init ops => ppq_run ops (ppq_new init) (ppq_ref_init init)
-  | CZip ops => zip_run ops Leaf []
+  | CZip ops => zip_run ops Leaf [] []
   | CCache probe ops => cache_run probe ops (cache_new 0) []
   | CSet ops => set_run ops set_empty []
-  | CPSet univ ops => pset_run univ ops [] []
+  | CPSet univ ops => pset_run univ ops [] [] []
   | CSMap ops => smap_run ops smap_empty []
   | CMerge lim its o => merge_check lim its o
   | CMergeSorted lim its o => merge_sorted_check lim its o
